@@ -8,6 +8,7 @@ package main
 
 import (
 	"fmt"
+	"go/ast"
 	"go/constant"
 	"go/token"
 	"go/types"
@@ -359,6 +360,12 @@ func (x *Exec) step(st *State) {
 	instr := fr.block.Instrs[fr.ip]
 	switch in := instr.(type) {
 	case *ssa.DebugRef:
+		if id, ok := in.Expr.(*ast.Ident); ok && id.Name != "_" {
+			if fr.names == nil {
+				fr.names = map[string]nameRef{}
+			}
+			fr.names[id.Name] = nameRef{V: in.X, IsAddr: in.IsAddr}
+		}
 		fr.ip++
 	case *ssa.Phi:
 		idx := -1
